@@ -133,8 +133,10 @@ def rand_case(rng, name, nshapes):
             nid += 1
         for _ in range(rng.randrange(1, 4)):
             c = rng.random()
-            if c < 0.7:
+            if c < 0.6:
                 ops.append(["push", rng.randrange(0, nshapes), nid, rng.random() < 0.25])
+            elif c < 0.72:
+                ops.append(["pushz", rng.choice([1, 1, 16, 128])])
             elif c < 0.85:
                 ops.append(["pushbox", nid])
             else:
